@@ -360,12 +360,14 @@ impl rustc_driver::Callbacks for Cb {
         out.push_str(&uv.out.join(","));
         out.push_str("],\"consts\":[");
         let mut first = true;
-        for id in tcx.hir_free_items() {
-            let did = id.owner_id.to_def_id();
-            if !matches!(tcx.def_kind(did), DefKind::Const{..} | DefKind::Static{..}) { continue; }
+        let mut const_dids: Vec<rustc_hir::def_id::DefId> = tcx.hir_free_items().map(|id| id.owner_id.to_def_id()).collect();
+        // associated constants of inherent / trait impls (`Self::SHIFT`): evaluated like free constants when the impl is not generic
+        const_dids.extend(tcx.hir_crate_items(()).impl_items().map(|id| id.owner_id.to_def_id()).filter(|d| matches!(tcx.def_kind(*d), DefKind::AssocConst{..})));
+        for did in const_dids {
+            if !matches!(tcx.def_kind(did), DefKind::Const{..} | DefKind::Static{..} | DefKind::AssocConst{..}) { continue; }
             let ty = tcx.type_of(did).instantiate_identity().skip_norm_wip();
             let mut val = String::from("null");
-            let is_const = matches!(tcx.def_kind(did), DefKind::Const{..});
+            let is_const = matches!(tcx.def_kind(did), DefKind::Const{..}) || (matches!(tcx.def_kind(did), DefKind::AssocConst{..}) && tcx.generics_of(did).count() == 0);
             if !is_const { /* statics: value not needed; const_eval_poly would ICE */ }
             else if let Ok(v) = tcx.const_eval_poly(did) {
                 match v {
